@@ -61,6 +61,7 @@ func ruleC11(w *World, r *Report) {
 		"Exemptions, each checked structurally: fresh object in its constructor; start-up code run by main before Serve; constructor extent (P4rtClient inside CreateChannel); pre-publication use of a new PFCPConn by handleNewPeers (NewPFCPConn publishes last); writes that precede the go statement starting the other side; per-connection confinement of PFCPConn. " +
 		"R11.2 every function returns with the lockset it was entered with. R11.3 atomic sections for the shared UP4 objects (tunnel peers, applications): a guarded write that depends on a guarded read re-reads it in its own critical section. " +
 		"R11.4 BESS fan-out: per-call completion channel, one goroutine per rule on every path of each worker starter, one completion per goroutine on every path, the count joined is the number started. R11.5 math/rand generators are created fresh in the constructor of a per-connection object and used only from that connection's goroutine."
+	r.Explanation += " R11.7 = C15 R15.3 on the shared tunnel peer; R11.8 the channel set-up in tryConnect runs under tryConnectMu and only after 'not connected' was observed inside that critical section; R11.9 no guarded write is computed from a read made in an earlier critical section of the same mutex (check-then-act across an unlock), with new helpers and their defers expanded."
 	r.NotDecided = "linearizability of compound operations beyond R11.3; instances of a struct type are not distinguished except by the per-instance root table; start-up races between goroutines launched during initialisation and the rest of initialisation; the HTTP handlers among themselves"
 
 	la := w.Locks()
@@ -335,6 +336,9 @@ func ruleC11(w *World, r *Report) {
 	// R11.6 shared objects are counted correctly: add and remove of a shared UP4 object (tunnel peer,
 	// application) use the same reference key — the sibling-agreement rules of C04 R04.3
 	r.withRule("R11.6", func() { ruleC04Shared(w, r) })
+	r.withRule("R11.7", func() { ruleC15TunnelRelease(w, r, "C11") })
+	ruleC11ConnectOnce(w, r)
+	ruleC11SplitSections(w, r)
 }
 
 func shortRoot(s string) string {
@@ -633,5 +637,69 @@ func ruleC11Rand(w *World, r *Report, ctx map[*ssa.Function][]*goRoot) {
 			}
 			r.check(okCtx, "R11.5", w.FuncName(f), "the generator is used only from its connection's goroutine", w.Pos(c.Pos()), "per-connection contexts", "the generator is also used from goroutine "+badRoot)
 		})
+	}
+}
+
+// ruleC11ConnectOnce (R11.8): every association's request, and the keep-alive loop, go through
+// tryConnect. The channel set-up (setupChannel / initialize — which may clear every table and re-create
+// the ID pools) must happen once per outage: the "already connected?" test that guards it is made while
+// tryConnectMu is held, so a caller that waited for the lock sees the connection the previous holder made.
+func ruleC11ConnectOnce(w *World, r *Report) {
+	const P = "C11"
+	f := w.Fn(P, "pfcpiface.(*UP4).tryConnect")
+	fn := w.FuncName(f)
+	isConn := w.Fn(P, "pfcpiface.(*UP4).IsConnected")
+	la := w.Locks()
+	n := 0
+	for _, name := range []string{"setupChannel", "initialize"} {
+		g := w.Fn(P, "pfcpiface.(*UP4)."+name)
+		for _, c := range callsTo(f, g) {
+			n++
+			si := c.(ssa.Instruction)
+			held := false
+			for mu := range la.heldAt[si] {
+				if mu.Name() == "tryConnectMu" {
+					held = true
+				}
+			}
+			r.check(held, "R11.8", fn, name+" runs under tryConnectMu", w.Pos(c.Pos()), "lock held", name+" can run without tryConnectMu: two callers set the channel up at the same time")
+			// every path to the set-up takes the "not connected" edge of a test made under the lock
+			g2 := onlyVia(f, si, func(a, b *ssa.BasicBlock) bool {
+				v, truth, ok := boolEdge(a, b)
+				if !ok || truth {
+					return false
+				}
+				call, isCall := v.(*ssa.Call)
+				if !isCall || staticCallee(call) != isConn {
+					return false
+				}
+				for mu := range la.heldAt[call] {
+					if mu.Name() == "tryConnectMu" {
+						return true
+					}
+				}
+				return false
+			})
+			r.check(g2, "R11.8", fn, name+" only after 'not connected' was observed under tryConnectMu", w.Pos(c.Pos()), "IsConnected()==false inside the critical section", "the connection test that guards "+name+" is made before tryConnectMu is taken and not repeated: every caller that arrived while the channel was down repeats the whole set-up after the first one finished — with clear_state_on_restart the second one wipes the tables and ID pools under the sessions the first caller's association has just installed")
+		}
+	}
+	r.floor("R11.8 set-up calls in tryConnect", n, 2)
+}
+
+// ruleC11SplitSections (R11.9): see splitCriticalSections in lockset.go.
+func ruleC11SplitSections(w *World, r *Report) {
+	var funcs []*ssa.Function
+	for _, f := range w.Funcs {
+		n := w.FuncName(f)
+		if strings.HasPrefix(n, "pfcpiface.") && !strings.Contains(w.Pos(f.Pos()), "_test.go") {
+			funcs = append(funcs, f)
+		}
+	}
+	ss, examined := w.splitCriticalSections(funcs)
+	for _, s := range ss {
+		r.bad("R11.9", w.FuncName(s.fn), "a guarded write acts on a read made in the same critical section ("+s.mu.Name()+")", w.Pos(posNear(s.write)), "the "+s.what+" is computed from a value read under "+s.mu.Name()+" at "+w.Pos(posNear(s.read))+", but the lock is released and taken again in between: two goroutines that interleave there act on the same stale answer (both take the same free identifier, both register the same key)")
+	}
+	if len(ss) == 0 {
+		r.ok("R11.9", "pfcpiface", "no check-then-act across two critical sections of one mutex", "-", fmt.Sprintf("%d guarded writes in functions that lock a mutex more than once examined", examined))
 	}
 }
